@@ -170,6 +170,29 @@ def common(dims, node, kind):
     return ref
 
 
+def _matmul(a, b, node):
+    """entry (i, j) = common dimension of a[i][k]*b[k][j] over k"""
+    if len(a[0]) != len(b):
+        raise Inhomogeneous("shape", node, "matrix product shapes")
+    saved = VALUE_AWARE
+    out = []
+    for i in range(len(a)):
+        row = []
+        for j in range(len(b[0])):
+            terms = [dmul(a[i][k], b[k][j]) for k in range(len(b))]
+            ref = ANY
+            for d in terms:
+                if d == ANY:
+                    continue
+                if ref == ANY:
+                    ref = d
+                elif not deq(ref, d):
+                    raise Inhomogeneous("matrix-product", node, f"entry [{i},{j}]: {fmt(ref)} vs {fmt(d)}")
+            row.append(ref)
+        out.append(row)
+    return out
+
+
 def refdim(e, stats=None):
     # returns dict | ANY | matrix(list of lists)
     if isinstance(e, (int, float, complex)):
@@ -216,14 +239,28 @@ def refdim(e, stats=None):
         if hasattr(b, "dimension"):
             return deps(b.dimension)
         return ANY
-    if isinstance(e, sympy.Mul):
+    if isinstance(e, (sympy.Mul, sympy.MatMul)):
         out = {}
-        mats = [a for a in e.args if isinstance(a, sympy.MatrixBase)]
-        if mats:
-            raise Unsupported("Mul with matrix")
+        mat = None
         for a in e.args:
-            out = dmul(out, refdim(a, stats))
+            d = refdim(a, stats)
+            if isinstance(d, list):
+                mat = d if mat is None else _matmul(mat, d, e)
+            else:
+                out = dmul(out, d)
+        if mat is not None:
+            return [[dmul(out, x) for x in row] for row in mat]
         return out
+    if isinstance(e, sympy.MatAdd):
+        ms = [refdim(a, stats) for a in e.args]
+        if not all(isinstance(m, list) for m in ms):
+            raise Unsupported("MatAdd of non-matrix")
+        r0 = ms[0]
+        for m in ms[1:]:
+            if len(m) != len(r0) or len(m[0]) != len(r0[0]):
+                raise Inhomogeneous("shape", e, "matrix shapes in sum")
+            r0 = [[common([r0[i][j], m[i][j]], e, "matrix-sum") for j in range(len(m[0]))] for i in range(len(m))]
+        return r0
     if isinstance(e, sympy.Pow):
         b = refdim(e.base, stats)
         x = refdim(e.exp, stats)
@@ -291,8 +328,6 @@ def refdim(e, stats=None):
         if hasattr(f, "dimension"):
             return deps(f.dimension)
         return ANY
-    if isinstance(e, sympy.MatMul) or isinstance(e, sympy.MatAdd):
-        raise Unsupported(name)
     if isinstance(e, sympy.Order):
         return ANY
     if name in ("Laplacian", "Gradient", "Divergence", "Curl", "BaseScalar"):
